@@ -85,7 +85,10 @@ def a2b(cs):
     """
     @param cs the base-62 encoded data (a string)
     """
-    return a2b_l(cs, num_octets_that_encode_to_this_many_chars(len(cs))*8)
+    os = a2b_l(cs, num_octets_that_encode_to_this_many_chars(len(cs))*8)
+    if b2a(os) != cs:
+        raise ValueError("not a canonical base62 encoding: %r" % (cs,))
+    return os
 
 def a2b_l(cs, lengthinbits):
     """
@@ -104,6 +107,8 @@ def a2b_l(cs, lengthinbits):
     """
     # We call bytes() again for Python 2, to ensure literals are using future's
     # Python 3-compatible variant.
+    if translate(cs, None, chars):
+        raise ValueError("not base62-encoded: %r" % (cs,))
     cs = [c for c in reversed(bytes(translate(cs, c2vtranstable)))] # treat cs as big-endian -- and we want to process the least-significant c first
 
     value = 0
@@ -114,6 +119,8 @@ def a2b_l(cs, lengthinbits):
         numvalues *= 62
 
     numvalues = 2**lengthinbits
+    if value >= 256 ** ((lengthinbits + 7) // 8):
+        raise ValueError("base62 value does not fit in %d bits" % (lengthinbits,))
     result_bytes = []
     while numvalues > 1:
         result_bytes.append(value % 256)
